@@ -28,6 +28,7 @@ import (
 	"encoding/json"
 	"fmt"
 	"os"
+	"path/filepath"
 	"runtime"
 	"runtime/debug"
 	"strings"
@@ -35,6 +36,9 @@ import (
 	"syscall"
 	"time"
 	"unsafe"
+
+	"github.com/Eyevinn/mp4ff/avc"
+	"github.com/Eyevinn/mp4ff/hevc"
 
 	"verifharness/runner"
 )
@@ -62,6 +66,8 @@ type probeReq struct {
 	StopAt   int            `json:"stop_at,omitempty"`  // >0: stop after this operation sequence number
 	Confirm  bool           `json:"confirm,omitempty"`  // no presumed-repeat abort
 	Known    []string       `json:"known,omitempty"`    // confirmed hang keys
+	// Setup: one library call of plan construction, to be made under the monitor (guard.go); served by bare probes
+	Setup *setupCall `json:"setup,omitempty"`
 }
 
 type probeViol struct {
@@ -393,11 +399,18 @@ var allocSampleMon = newAllocSample()
 func allocatedBytesMon() uint64 { return readAlloc(allocSampleMon) }
 
 // ProbeMain is the entry point of the probe process:
-// <binary> --c16-probe <status file> <repo dir> <tier>
+// <binary> --c16-probe <status file> <repo dir> <tier> [bare]
+// bare: no seeds are loaded, the probe serves the library calls of setup only.
 func ProbeMain(args []string) {
 	if len(args) < 3 {
-		fmt.Fprintln(os.Stderr, "usage: --c16-probe statusfile repodir tier")
+		fmt.Fprintln(os.Stderr, "usage: --c16-probe statusfile repodir tier [bare]")
 		os.Exit(3)
+	}
+	bare := len(args) > 3 && args[3] == "bare"
+	if bare {
+		// the parent process has no address space limit; the workers' one is inherited anyway
+		lim := uint64(3072) << 20
+		_ = syscall.Setrlimit(syscall.RLIMIT_AS, &syscall.Rlimit{Cur: lim, Max: lim})
 	}
 	if f, err := os.OpenFile(args[0], os.O_RDWR, 0o644); err == nil {
 		if m, err := syscall.Mmap(int(f.Fd()), 0, statusFileLen, syscall.PROT_READ|syscall.PROT_WRITE, syscall.MAP_SHARED); err == nil {
@@ -406,13 +419,18 @@ func ProbeMain(args []string) {
 		f.Close()
 	}
 	env := &runner.Env{RepoDir: args[1], Tier: args[2], Seed: 1}
-	s, err := loadSeeds(env)
-	if err != nil {
-		fmt.Fprintln(os.Stderr, "probe: seeds:", err)
-		os.Exit(3)
+	if !bare {
+		// the library calls of loadSeeds/buildDefaultMaps are looked up in the verdict file of the run (guard.go)
+		vetInit(filepath.Dir(args[0]), env.RepoDir, env.Tier)
+		s, err := loadSeeds(env)
+		if err != nil {
+			fmt.Fprintln(os.Stderr, "probe: seeds:", err)
+			os.Exit(3)
+		}
+		seeds = s
+		defaultMaps = buildDefaultMaps(s)
+		vetStop()
 	}
-	seeds = s
-	defaultMaps = buildDefaultMaps(s)
 	probeOut = bufio.NewWriterSize(os.Stdout, 1<<16)
 	in := bufio.NewReaderSize(os.Stdin, 1<<20)
 	go monitor()
@@ -458,6 +476,11 @@ func serve(req *probeReq) *probeResp {
 		poisoned[p] = true
 	}
 	st := &seqState{poisoned: poisoned, stopAt: req.StopAt}
+	if req.Setup != nil {
+		serveSetup(resp, sk, st, req.Setup)
+		setStatus(-1, "idle")
+		return resp
+	}
 	chains := req.Chains
 	if len(chains) == 0 {
 		chains = []*chainDetail{req.Chain}
@@ -564,4 +587,156 @@ func serveChain(resp *probeResp, sk *localSink, st *seqState, ch *chainDetail, i
 			}
 		}
 	}
+}
+
+// ---------------------------------------------------------------------------
+// bare probe: the library calls of plan construction
+
+// The parameter sets of the maps were accepted by earlier calls of the same
+// kind (a set only enters a map of setup after its own call came back), so
+// they are parsed here outside the monitor, once per probe process.
+var (
+	scoutSPSCache = map[string]interface{}{}
+	scoutPPSCache = map[string]interface{}{}
+)
+
+func scoutGuard(f func()) {
+	defer func() { _ = recover() }()
+	f()
+}
+
+func scoutAVCSPSMap(refs []psRef) map[uint32]*avc.SPS {
+	m := map[uint32]*avc.SPS{}
+	for _, r := range refs {
+		k := "avc" + string(r.B)
+		v, ok := scoutSPSCache[k]
+		if !ok {
+			var sps *avc.SPS
+			scoutGuard(func() {
+				if s, err := avc.ParseSPSNALUnit(r.B, true); err == nil {
+					sps = s
+				}
+			})
+			v = sps
+			scoutSPSCache[k] = v
+		}
+		if sps, _ := v.(*avc.SPS); sps != nil {
+			for _, id := range r.IDs {
+				m[id] = sps
+			}
+		}
+	}
+	return m
+}
+
+func scoutHEVCSPSMap(refs []psRef) map[uint32]*hevc.SPS {
+	m := map[uint32]*hevc.SPS{}
+	for _, r := range refs {
+		k := "hevc" + string(r.B)
+		v, ok := scoutSPSCache[k]
+		if !ok {
+			var sps *hevc.SPS
+			scoutGuard(func() {
+				if s, err := hevc.ParseSPSNALUnit(r.B); err == nil {
+					sps = s
+				}
+			})
+			v = sps
+			scoutSPSCache[k] = v
+		}
+		if sps, _ := v.(*hevc.SPS); sps != nil {
+			for _, id := range r.IDs {
+				m[id] = sps
+			}
+		}
+	}
+	return m
+}
+
+func ppsCacheKey(codec string, r psRef) string {
+	b, _ := json.Marshal(r.SPS)
+	return codec + string(r.B) + "|" + string(b)
+}
+
+func scoutAVCPPSMap(refs []psRef) map[uint32]*avc.PPS {
+	m := map[uint32]*avc.PPS{}
+	for _, r := range refs {
+		k := ppsCacheKey("avc", r)
+		v, ok := scoutPPSCache[k]
+		if !ok {
+			var pps *avc.PPS
+			sm := scoutAVCSPSMap(r.SPS)
+			scoutGuard(func() {
+				if p, err := avc.ParsePPSNALUnit(r.B, sm); err == nil {
+					pps = p
+				}
+			})
+			v = pps
+			scoutPPSCache[k] = v
+		}
+		if pps, _ := v.(*avc.PPS); pps != nil {
+			for _, id := range r.IDs {
+				m[id] = pps
+			}
+		}
+	}
+	return m
+}
+
+func scoutHEVCPPSMap(refs []psRef) map[uint32]*hevc.PPS {
+	m := map[uint32]*hevc.PPS{}
+	for _, r := range refs {
+		k := ppsCacheKey("hevc", r)
+		v, ok := scoutPPSCache[k]
+		if !ok {
+			var pps *hevc.PPS
+			sm := scoutHEVCSPSMap(r.SPS)
+			scoutGuard(func() {
+				if p, err := hevc.ParsePPSNALUnit(r.B, sm); err == nil {
+					pps = p
+				}
+			})
+			v = pps
+			scoutPPSCache[k] = v
+		}
+		if pps, _ := v.(*hevc.PPS); pps != nil {
+			for _, id := range r.IDs {
+				m[id] = pps
+			}
+		}
+	}
+	return m
+}
+
+// serveSetup makes one library call of plan construction under the monitor.
+func serveSetup(resp *probeResp, sk *localSink, st *seqState, sc *setupCall) {
+	in := sc.In
+	x := &runCtx{c: sk, in: in, desc: "setup: " + sc.Op, seq: st, mode: "setup"}
+	atomic.StoreInt64(&monItem, 0)
+	atomic.StoreInt64(&monChain, 0)
+	var f func()
+	switch sc.Op {
+	case "avc.ParseSPSNALUnit":
+		f = func() { _, _ = avc.ParseSPSNALUnit(in, true) }
+	case "hevc.ParseSPSNALUnit":
+		f = func() { _, _ = hevc.ParseSPSNALUnit(in) }
+	case "avc.ParsePPSNALUnit":
+		sm := scoutAVCSPSMap(sc.SPS)
+		f = func() { _, _ = avc.ParsePPSNALUnit(in, sm) }
+	case "hevc.ParsePPSNALUnit":
+		sm := scoutHEVCSPSMap(sc.SPS)
+		f = func() { _, _ = hevc.ParsePPSNALUnit(in, sm) }
+	case "avc.ParseSliceHeader":
+		sm, pm := scoutAVCSPSMap(sc.SPS), scoutAVCPPSMap(sc.PPS)
+		f = func() { _, _ = avc.ParseSliceHeader(in, sm, pm) }
+	case "hevc.ParseSliceHeader":
+		sm, pm := scoutHEVCSPSMap(sc.SPS), scoutHEVCPPSMap(sc.PPS)
+		f = func() { _, _ = hevc.ParseSliceHeader(in, sm, pm) }
+	default:
+		sk.Count("setup_calls_of_unknown_operation", 1)
+		return
+	}
+	lastAlloc = 0 // the baseline is read when the call starts: building the maps is not charged to it
+	x.call(sc.Op, len(in), f)
+	resp.NOps += x.nOps
 }
